@@ -28,12 +28,12 @@ Proof.
 Qed.
 Print Assumptions C18_leg_formula.
 
-(* the deviation of leg k is the mean of the two station directions when the leg has a length; where the two
-   directions coincide it is that direction, so the position moves by exactly the depth difference along it *)
+(* the deviation of leg k is the mean of the two station directions; where the two directions coincide it is that
+   direction, so the position moves by exactly the depth difference along it *)
 Theorem C18_leg_direction : forall (ang : Type) (dir : ang -> V3) (t : list (Q * ang)) k t0 a0 t1 a1,
   nth_error t k = Some (t0, a0) -> nth_error t (S k) = Some (t1, a1) ->
   exists v, nth_error (legs dir t) k = Some ((t1 - t0)%Q, v)
-    /\ (~ (t1 - t0 == 0)%Q -> veq v (vmean (dir a0) (dir a1)))
+    /\ veq v (vmean (dir a0) (dir a1))
     /\ (veq (dir a0) (dir a1) -> veq v (dir a0)).
 Proof.
   intros ang dir t k t0 a0 t1 a1 H0 H1. eexists. split; [apply legs_nth; eassumption|]. split.
@@ -41,6 +41,16 @@ Proof.
   - apply dev_same.
 Qed.
 Print Assumptions C18_leg_direction.
+
+(* the code before fixes/C18-divide-uninitialised.patch: "every leg moves along the mean of its two station directions" *)
+Definition C18_old_leg_direction_full : Prop := forall g din dout len, veq (dev_old g din dout len) (vmean din dout).
+
+(* REFUTED (pre-repair code): a zero-length leg takes the first station's direction even when the uninitialised entry of
+   np.divide(where=) holds a finite number g (with NaN there every location becomes NaN); it matters for the last leg,
+   whose deviation is continued beyond the final survey *)
+Theorem C18_divide_old_code_refuted : ~ C18_old_leg_direction_full.
+Proof. intros H. exact (proj2 (dev_old_zero_leg_witness 0%Q) (H 0%Q (0, 0, 1)%Q (0, 0, -1)%Q 0%Q)). Qed.
+Print Assumptions C18_divide_old_code_refuted.
 
 (* continuity at every station, part 1: leg k ends where leg k+1 starts *)
 Theorem C18_continuous_legs : forall (ang : Type) (dir : ang -> V3) collar (s : list (Q * ang)) k p l v,
